@@ -694,6 +694,128 @@ func init() {
 		}
 	})
 
+	// ---- (b3) submissions of a remote party: format x path form x path_nested chain x envelope shape
+	registerG("pe-b3-submissions", func(t *testing.T, s *crash.Sweep, thorough bool) {
+		name := "pe.grammar(submission product)"
+		if !s.WantEntry(name) {
+			return
+		}
+		f := getPEGrammarFix(t)
+		pd := mustPD(decode(fieldDef("id", `"f"`, "path", directPaths("vs"), "filter", filterJSON(`"string"`, "", "", `"^(IJ.*)$"`))))
+		var ld any
+		_ = json.Unmarshal(mustJSON(f.creds["ld"]), &ld)
+		ldPresentation := ldVP(ld)
+		hdr, claims := jwtVPClaims(f.creds["jwt"].Raw())
+		jwtPresentation := crash.CompactJSON(hdr, claims, keyA)
+		// a JWT presentation that carries a JSON-LD credential and a JWT credential
+		hdr2, claims2 := jwtVPClaims(ld, f.creds["jwt"].Raw())
+		mixedPresentation := crash.CompactJSON(hdr2, claims2, keyA)
+		envelopes := []struct {
+			name string
+			raw  []byte
+		}{{"ld", mustJSON(ldPresentation)}, {"jwt", []byte(jwtPresentation)}, {"jwt-mixed", []byte(mixedPresentation)}, {"[ld,jwt]", mustJSON([]any{ldPresentation, jwtPresentation})},
+			{"[jwt]", mustJSON([]any{jwtPresentation})}, {"[]", []byte("[]")}, {"[jwt,jwt]", mustJSON([]any{jwtPresentation, jwtPresentation})}}
+		formats := []string{"ldp_vc", "jwt_vc", "ldp_vp", "jwt_vp", "ldp", "jwt", "jwt_vc_json", "unknown", ""}
+		paths := []string{"$", "$.verifiableCredential", "$.verifiableCredential[0]", "$.verifiableCredential[1]", "$.verifiableCredential[-1]", "$.verifiableCredential[*]", "$..verifiableCredential", "$[0]", "$[1]", "$[-1]", "$[*]",
+			"$[0].verifiableCredential", "$[1].verifiableCredential[0]", "$.vp.verifiableCredential[0]", "$.holder", "$.type", "$.proof", "$..*", "$.nope", "", "$[", "42", `"` + f.creds["jwt"].Raw() + `"`, "$.verifiableCredential.credentialSubject",
+			"$..credentialSubject", "$.verifiableCredential[?(@.issuer)]", "$" + strings.Repeat("[0]", 2000)}
+		run := func(envRaw, subRaw []byte) func() string {
+			return func() string {
+				env, err := pe.ParseEnvelope(envRaw)
+				if err != nil {
+					return "envelope-err"
+				}
+				sub, err := pe.ParsePresentationSubmission(subRaw)
+				if err != nil {
+					return "schema-err"
+				}
+				creds, err := sub.Validate(*env, pd)
+				if err != nil {
+					return "invalid"
+				}
+				if _, err := pd.ResolveConstraintsFields(creds); err != nil {
+					return "resolve-err"
+				}
+				return "ok"
+			}
+		}
+		entry := func(format, path, nested string) string {
+			return jobj("id", `"d"`, "format", jstr(format), "path", jstr(path), "path_nested", nested)
+		}
+		submission := func(entries ...string) []byte {
+			return []byte(`{"id":"s","definition_id":"pd","descriptor_map":` + jarr(entries...) + `}`)
+		}
+		if !s.Replaying() {
+			if out := run(envelopes[0].raw, submission(entry("ldp_vc", "$.verifiableCredential", "")))(); out != "ok" {
+				t.Fatalf("harness: typical submission refused: %s", out)
+			}
+			if out := run(envelopes[3].raw, submission(entry("ldp_vp", "$[0]", entry("ldp_vc", "$.verifiableCredential", ""))))(); out != "ok" {
+				t.Fatalf("harness: typical nested submission refused: %s", out)
+			}
+		}
+		for _, env := range envelopes {
+			for _, format := range formats {
+				for pi, path := range paths {
+					env, format, pi, path := env, format, pi, path
+					s.Case(name, fmt.Sprintf("envelope=%s/format=%s/path#%d", env.name, format, pi), true, false, func() ([]byte, func() string) {
+						sub := submission(entry(format, path, ""))
+						return sub, run(env.raw, sub)
+					})
+					// one nesting level: every inner format x the inner paths that can select something in a decoded presentation / credential
+					for fi, innerFormat := range formats[:6] {
+						for ii, innerPath := range []string{"$.verifiableCredential", "$.verifiableCredential[0]", "$.verifiableCredential[1]", "$", "$.credentialSubject", "$.nope", "$["} {
+							if !thorough && !((pi == 0 || pi == 2 || pi == 7 || pi == 8 || pi == 10 || pi == 22) && fi < 4 && (format == "unknown" || strings.Contains(format, "_v"))) {
+								continue // quick: nesting below the path forms that select a presentation, a credential or the smuggled literal; registry formats
+							}
+							innerFormat, ii, innerPath := innerFormat, ii, innerPath
+							s.Case(name, fmt.Sprintf("envelope=%s/format=%s/path#%d/nested=%s/path#%d", env.name, format, pi, innerFormat, ii), true, false, func() ([]byte, func() string) {
+								sub := submission(entry(format, path, entry(innerFormat, innerPath, "")))
+								return sub, run(env.raw, sub)
+							})
+						}
+					}
+				}
+			}
+			if s.Stopped() {
+				return
+			}
+		}
+		// nesting chains (a presentation or credential re-selected `$` again and again), and lists of entries
+		for _, env := range envelopes {
+			for _, format := range []string{"ldp_vp", "jwt_vp", "ldp_vc", "jwt_vc"} {
+				for _, depth := range []int{2, 5, 50, 1000} {
+					for _, leaf := range []string{"$.verifiableCredential", "$.verifiableCredential[0]", "$"} {
+						env, format, depth, leaf := env, format, depth, leaf
+						s.Case(name, fmt.Sprintf("envelope=%s/chain=%s x%d/leaf=%s", env.name, format, depth, leaf), true, false, func() ([]byte, func() string) {
+							leafFormat := "ldp_vc"
+							if strings.HasPrefix(format, "jwt") {
+								leafFormat = "jwt_vc"
+							}
+							nested := entry(leafFormat, leaf, "")
+							for i := 0; i < depth; i++ {
+								nested = entry(format, "$", nested)
+							}
+							top := "$"
+							if strings.HasPrefix(env.name, "[") {
+								top = "$[0]"
+							}
+							sub := submission(entry(format, top, nested))
+							return sub, run(env.raw, sub)
+						})
+					}
+				}
+			}
+			for i, entries := range [][]string{{}, {entry("ldp_vc", "$.verifiableCredential", ""), entry("ldp_vc", "$.verifiableCredential", "")}, {entry("ldp_vc", "$.verifiableCredential", ""), jobj("id", `"e"`, "format", `"ldp_vc"`, "path", `"$.verifiableCredential"`)},
+				{jobj("id", `""`, "format", `"ldp_vc"`, "path", `"$.verifiableCredential"`)}, {jobj("id", `"d"`, "format", `"ldp_vc"`, "path", `"$.verifiableCredential"`, "path_nested", "null")}} {
+				env, i, entries := env, i, entries
+				s.Case(name, fmt.Sprintf("envelope=%s/entry-list#%d", env.name, i), true, false, func() ([]byte, func() string) {
+					sub := submission(entries...)
+					return sub, run(env.raw, sub)
+				})
+			}
+		}
+	})
+
 	// ---- (c) format designation maps
 	registerG("pe-c-formats", func(t *testing.T, s *crash.Sweep, thorough bool) {
 		name := "pe.grammar(format designations)"
